@@ -111,3 +111,24 @@ Theorem C12_attribute_hover_marks : forall f,
   (In "sensitive"%string (detail_marks f) <-> af_sensitive f = true).
 Proof. exact detail_marks_spec. Qed.
 Print Assumptions C12_attribute_hover_marks.
+
+(* the description of a list / set / map value is the wrapper around the description of its element (and there is none
+   when the schema does not say what the collection holds) *)
+Theorem C12_collection_description_wraps_the_element : forall f c lvl s,
+  ehd (S f) c lvl = Some (Some s) ->
+  match c with
+  | CList (Some e) _ _ => exists s', ehd f e lvl = Some (Some s') /\ s = ("list(" ++ s' ++ ")")%string
+  | CSet (Some e) _ _ => exists s', ehd f e lvl = Some (Some s') /\ s = ("set(" ++ s' ++ ")")%string
+  | CMap (Some e) _ _ _ _ => exists s', ehd f e lvl = Some (Some s') /\ s = ("map(" ++ s' ++ ")")%string
+  | CList None _ _ | CSet None _ _ | CMap None _ _ _ _ => False
+  | _ => True
+  end.
+Proof. exact ehd_collection_wraps_element. Qed.
+Print Assumptions C12_collection_description_wraps_the_element.
+
+(* the description of a tuple value lists the descriptions of all its elements, in order *)
+Theorem C12_tuple_description_lists_the_elements : forall f es lvl s,
+  ehd (S f) (CTuple es) lvl = Some (Some s) ->
+  exists ds, s = ("tuple([" ++ Base.Str.join ", " ds ++ "])")%string /\ Forall2 (fun e d => ehd f e lvl = Some (Some d)) es ds.
+Proof. exact ehd_tuple_lists_elements. Qed.
+Print Assumptions C12_tuple_description_lists_the_elements.
